@@ -537,8 +537,15 @@ func (a *GarbageCollectingAssociator) AssociateTemplates(ctx context.Context, cr
 		// Delete the composed resource. We only want to delete the resource we
 		// observed: if it was deleted and another object was created with the
 		// same name in the meantime, that object is not ours to delete.
+		// The update above left us with the resource version it produced: if the
+		// resource changed since (for example its controller did), it is not
+		// the object we checked any more.
 		uid := cd.GetUID()
-		if err := a.cached.Delete(ctx, cd, client.Preconditions{UID: &uid}); resource.IgnoreNotFound(err) != nil {
+		pre := client.Preconditions{UID: &uid}
+		if rv := cd.GetResourceVersion(); rv != "" {
+			pre.ResourceVersion = &rv
+		}
+		if err := a.cached.Delete(ctx, cd, pre); resource.IgnoreNotFound(err) != nil {
 			return nil, errors.Wrap(err, errGCComposed)
 		}
 	}
